@@ -49,7 +49,7 @@ ASSUMPTIONS = [
     "system B (direct flush with concrete values) is the reference for system A; B itself is judged by C05",
     "template operands only in rotation numerators (what the instruction classes accept)",
 ]
-PROBES = ["precompiled-segment", "template-used", "flush-after-precompile", "nv-transpiler", "loop-in-precompiled",
+PROBES = ["deferred-commit", "precompiled-segment", "template-used", "flush-after-precompile", "nv-transpiler", "loop-in-precompiled",
           "value-crosses-precompile", "regfuture-in-precompiled", "two-precompiled-segments"]
 
 ALLOW = {"qblock", "qubit", "gate", "measure", "array", "loop", "rot", "add", "if", "empty-body", "regfuture"}
@@ -177,7 +177,9 @@ def run(ch: Choices, opts: Dict[str, Any]) -> Dict[str, Any]:
         templates_in(stmts, names)
         values = {nm: ch.draw(32, "tval") for nm in names}
         gen.flush_stmt()
-        segments.append({"stmts": stmts, "precompile": pre, "values": values})
+        # a compiled subroutine may be committed later: after the next segment's operations were issued
+        defer = pre and si < n_seg - 1 and ch.flag(1, 3, "defer")
+        segments.append({"stmts": stmts, "precompile": pre, "values": values, "defer": defer})
     faults: Dict[str, int] = {}
     probes: Dict[str, int] = {}
 
@@ -191,6 +193,7 @@ def run(ch: Choices, opts: Dict[str, Any]) -> Dict[str, Any]:
         bump(probes, "nv-transpiler")
     n_pre = 0
     seen_pre = False
+    pending: List[Tuple[Any, Dict[str, int]]] = []
     for si, seg in enumerate(segments):
         conc = subst(seg["stmts"], seg["values"])
         tmpl = subst(seg["stmts"], {nm: Template(nm) for nm in seg["values"]})
@@ -206,11 +209,24 @@ def run(ch: Choices, opts: Dict[str, Any]) -> Dict[str, Any]:
                                     {"system": which, "stmt": repr(st), "error": str(e)[:300], **sample})
         # end of segment
         try:
+            # subroutines compiled earlier and held back are committed now, in order, before this segment's own end
+            # action (system B executed them at their own segment end; the SDK-side call sequence is identical)
+            if pending:
+                for sub0, vals0 in pending:
+                    sub0.instantiate(A.conn.app_id, dict(vals0))
+                    A.conn.commit_subroutine(sub0)
+                pending.clear()
+                bump(probes, "deferred-commit")
+                bump(faults, "commit-deferred-past-later-operations")
+                A.drain(sample)
             if seg["precompile"]:
                 sub = A.conn.compile()
                 if sub is not None:
-                    sub.instantiate(A.conn.app_id, dict(seg["values"]))
-                    A.conn.commit_subroutine(sub)
+                    if seg["defer"]:
+                        pending.append((sub, seg["values"]))
+                    else:
+                        sub.instantiate(A.conn.app_id, dict(seg["values"]))
+                        A.conn.commit_subroutine(sub)
                 n_pre += 1
                 bump(probes, "precompiled-segment")
                 if seg["values"]:
@@ -245,12 +261,16 @@ def run(ch: Choices, opts: Dict[str, Any]) -> Dict[str, Any]:
         if fa is not None or fb is not None:
             ca = fa.signature.split("|", 2)[2] if fa is not None else None
             cb = fb.signature.split("|", 2)[2] if fb is not None else None
+            if pending and fa is None:
+                raise Discard("direct system faulted while the precompiled one still holds the subroutine back")
             if ca == cb:
                 # both flows fault identically: not a difference between precompiled and direct (C09's business)
                 raise Discard("both systems fault identically: " + str(ca))
             raise Violation("twin", f"twin|controller-fault-in-one-system|A={ca}|B={cb}",
                             {"A": fa.detail if fa else None, "B": fb.detail if fb else None})
         where = f"segment#{si}({'precompiled' if seg['precompile'] else 'flush'})"
+        if pending:
+            continue   # A has not executed this segment yet; compared after its commit
         if A.qm.log != B.qm.log:
             n = 0
             while n < len(A.qm.log) and n < len(B.qm.log) and A.qm.log[n] == B.qm.log[n]:
